@@ -41,7 +41,7 @@ class Engine:
         return out
 
     # ---------------------------------------------------------------- evaluation of a batch
-    def evaluate(self, hists, go, tag="main"):
+    def evaluate(self, hists, go, tag="main", ml=None):
         """-> (oracle failures [(hist text, Fail)], sims)"""
         fails = []; sims = []
         for h in hists:
@@ -49,6 +49,7 @@ class Engine:
             hdr, ops = self.ck.split_hist(text)
             hid = hdr.split()[1]
             sim = oracle.simulate(hdr, ops, go.get(hid, []))
+            sim.model_obs = (ml or {}).get(hid)
             for c in self.spec.get("checks", []):
                 getattr(oracle, "check_" + c)(sim) if c not in ("canon", "linkdiff") else None
             if "linkdiff" in self.spec.get("checks", []):
@@ -74,9 +75,11 @@ class Engine:
                 sim.fail("reads-diff", r["idx"], "diff of a version with itself read %d nodes" % r["loads"])
             elif r["loads"] > 2 * r["D"] + 2:
                 common = r["loaded"] & r["new"] & r["old"]
+                mo = getattr(sim, "model_obs", None)
+                agrees = bool(mo) and r["idx"] < len(mo) and r["loaded"] <= set(mo[r["idx"]]["loads"])
                 sim.fail("reads-diff", r["idx"], "diff read %d distinct nodes, D=%d (bound %d); %d of them common to both versions" %
                          (r["loads"], r["D"], 2 * r["D"] + 2, len(common)),
-                         D=r["D"], loads=r["loads"], excess_common=len(common), loaded_outside=len(r["loaded"] - r["new"] - r["old"]))
+                         D=r["D"], loads=r["loads"], excess_common=len(common), loaded_outside=len(r["loaded"] - r["new"] - r["old"]), model_agrees=agrees)
 
     # ---------------------------------------------------------------- known findings
     def is_known(self, f):
@@ -152,7 +155,7 @@ class Engine:
         hists = self.corpus() + self.histories(self.seed) if self.spec.get("profiles") else []
         if hists:
             go, ml = ck.run_hist(hists, self.pid, go_bin)
-            fails, sims = self.evaluate(hists, go)
+            fails, sims = self.evaluate(hists, go, ml=ml)
             dis = ck.correspond(hists, go, ml, self.spec.get("corr", {}))
             for text, sim in sims:
                 hdr, ops = ck.split_hist(text)
@@ -293,7 +296,7 @@ class Engine:
         text = d["header"] + "\n" + "\n".join(d["ops"]) + "\n"
         ck.build_driver()
         go, ml = ck.run_hist([text], self.pid + "-replay", go_bin)
-        fails, _ = self.evaluate([text], go)
+        fails, _ = self.evaluate([text], go, ml=ml)
         fails = [f for _, f in fails if not self.is_known(f)]
         dis = ck.correspond([text], go, ml, self.spec.get("corr", {}))
         if d["kind"] == "oracle":
